@@ -9,14 +9,10 @@ import c11lib
 SITES = {
     "server-cipher-suites-empty-after-filter-no-alert":
         "conn.go HandshakeContext (filterCipherSuitesForCertificate / filterCipherSuitesForVersion -> ErrNoAvailableCipherSuites)",
-    "rsa-key-on-dtls13-certificate-verify-not-encodable":
-        "pkg/protocol/handshake/message_certificate_verify.go Marshal (RSA-PSS scheme) / signaturehash SelectSignatureScheme13",
     "dual-stack-client-and-server-deadlock":
         "conn.go prepareDualStackServerHandshakeStart / negotiateVersionServer (ClientHello consumed before the FSM starts)",
     "dual-stack-client-cannot-read-serverhello-with-protected-flight":
         "conn.go negotiateVersionClient / unpackDatagram (DTLS 1.2 unpacker before the version is known)",
-    "handshake-alert-wrapped-in-unencrypted-cid-record":
-        "conn.go notify (ShouldWrapCID on an unencrypted handshake alert)",
     "dtls13-unprotected-alert-under-handshake-epoch-ignored-by-peer":
         "conn.go notify (alert left unencrypted until the handshake completes, header epoch of the handshake keys)",
     "completes-across-empty-intersection:alpn":
